@@ -1,196 +1,493 @@
 import StorageModel.C03.Refine
 import StorageModel.C03.LayeredSpec
 /-
-  C03, enlarged model: the invariant and its preservation by every operation of the parent / child
-  universe (the property theorems are in StorageModel/Properties/C03.lean).
+  C03, enlarged model: the invariant, the characterisation of `ProcessAfterUpdate` over the
+  registered constraints in any registration order (`afterUpdate_char`: on success the invariant
+  holds again and the spec accepts; on failure the error is one the spec lists), and preservation of
+  the invariant by every operation of the parent / child universe.
+  (The property theorems are in StorageModel/Properties/C03.lean.)
 -/
 namespace StorageModel.C03.Layered
 open StorageModel StorageModel.C03
+open StorageModel.C03.Layered.Spec (vName vAlias vRoles)
 
-/-- the invariant of Model.lean for the parent store's buckets, and: child data only inside an
-    existing entity bucket -/
-structure Inv (s : State) : Prop where
-  base : C03.Inv s.base
+/-- the invariant of the parent store's buckets under a schema: every index mirrors the values it
+    sees (nothing, when it is not registered) -/
+structure BInv (sch : Schema) (b : C03.State) : Prop where
+  uName : UI (vName sch) b.ents b.uName
+  uAlias : UI (vAlias sch) b.ents b.uAlias
+  sRoles : SI (vRoles sch) b.ents b.sRoles
+  noEmptyKeys : NEK b.sRoles
+  namesNonEmpty : sch.regName = true → ∀ id e, b.ents.lookup id = some e → e.name ≠ []
+  rolesNonEmpty : ∀ id e, b.ents.lookup id = some e → [] ∉ vRoles sch e
+  idsNonEmpty : b.ents.lookup [] = none
+  entsBucket : ∀ id e, b.ents.lookup id = some e → b.hasEnts = true
+
+/-- … and: child data only inside an existing entity bucket -/
+structure Inv (sch : Schema) (s : State) : Prop where
+  base : BInv sch s.base
   extIn : ∀ id t, s.ext.lookup id = some t → (s.base.ents.lookup id).isSome = true
 
-theorem inv_empty : Inv State.empty := ⟨C03.inv_empty, by simp [State.empty]⟩
+theorem inv_empty (sch : Schema) : Inv sch State.empty :=
+  ⟨by constructor <;> simp [State.empty, C03.State.empty, UI, SI, NEK], by simp [State.empty]⟩
 
-/-! ### frame lemmas: what the index protocol leaves alone -/
+/-! ### an index that sees nothing -/
 
-theorem afterUpdate_frame {c : Bool} {cap : Captured} {s s' : C03.State} {id : Id}
-    (h : afterUpdate c cap s id = .ok s') : s'.ents = s.ents ∧ s'.hasEnts = s.hasEnts := by
-  simp only [afterUpdate, bind, Except.bind, pure, Except.pure] at h
-  split at h
-  · cases h
-  · split at h
-    · cases h
+theorem UI_blind {E : Type} {f : E → Bytes} {ents ents' : Map Id E} {idx : Map Bytes Id} (hf : ∀ e, f e = [])
+    (h : UI f ents idx) : UI f ents' idx := by
+  intro v i
+  have := h v i
+  simp only [hf] at this ⊢
+  grind
+
+theorem SI_blind {E : Type} {r : E → List Bytes} {ents ents' : Map Id E} {idx : Map Bytes (List Id)} (hr : ∀ e, r e = [])
+    (h : SI r ents idx) : SI r ents' idx := by
+  intro v i
+  have := h v i
+  simp only [hr] at this ⊢
+  simpa using this
+
+/-! ### one unique constraint, in each of the three ways the protocol is entered -/
+
+/-- how `ProcessAfterUpdate` of a unique index is entered: `IsCreate` and the captured old value -/
+inductive UShape {E : Type} (f : E → Bytes) (ents : Map Id E) (id : Id) : Bool → Bytes → Prop
+  /-- Create of a new entity: nothing captured -/
+  | fresh (h : ents.lookup id = none) : UShape f ents id true []
+  /-- Update: the old value captured by `ProcessBeforeUpdate` -/
+  | update (old : E) (h : ents.lookup id = some old) : UShape f ents id false (f old)
+  /-- child-store Create over an existing parent entity: a create context with a captured value -/
+  | recreate (old : E) (h : ents.lookup id = some old) : UShape f ents id true (f old)
+
+theorem uniqueAfter_true_err {E : Type} {f : E → Bytes} {ents : Map Id E} {idx : Map Bytes Id} {id : Id} {old e : E}
+    {nullable : Bool} {x : Err} (hui : UI f ents idx) (hold : ents.lookup id = some old)
+    (h : uniqueAfter true nullable (f old) (f e) id idx = .error x) :
+    (x = .nullNotAllowed ∧ f e = [] ∧ nullable = false) ∨ (x = .dup ∧ f e ≠ [] ∧ HeldByOther f ents id (f e)) := by
+  unfold uniqueAfter at h
+  simp only [Bool.not_true, Bool.false_and, Bool.false_eq_true, if_false, ne_eq] at h
+  have h2 := hui (f e)
+  unfold HeldByOther
+  by_cases ho : f old = []
+  · simp only [ho, not_true_eq_false, if_false] at h
+    split at h
+    · split at h
+      · next i hi => cases h; right; refine ⟨rfl, by assumption, ?_⟩; grind
+      · cases h
+    · split at h
+      · cases h; left; simp_all
+      · cases h
+  · simp only [ho, not_false_eq_true, if_true] at h
+    split at h
+    · split at h
+      · next i hi => cases h; right; refine ⟨rfl, by assumption, ?_⟩; simp only [Map.lookup_erase] at hi; grind
+      · cases h
+    · split at h
+      · cases h; left; simp_all
+      · cases h
+
+theorem uniqueAfter_true_okc {E : Type} {f : E → Bytes} {ents : Map Id E} {idx idx' : Map Bytes Id} {id : Id} {old e : E}
+    {nullable : Bool} (hui : UI f ents idx) (hold : ents.lookup id = some old)
+    (h : uniqueAfter true nullable (f old) (f e) id idx = .ok idx') :
+    (f e = [] ∧ nullable = true) ∨ (f e ≠ [] ∧ ¬ HeldByOther f ents id (f e)) := by
+  unfold uniqueAfter at h
+  simp only [Bool.not_true, Bool.false_and, Bool.false_eq_true, if_false, ne_eq] at h
+  have h2 := hui (f e)
+  unfold HeldByOther
+  by_cases ho : f old = []
+  · simp only [ho, not_true_eq_false, if_false] at h
+    split at h
     · split at h
       · cases h
-      · cases h; exact ⟨rfl, rfl⟩
+      · next hn =>
+        right; refine ⟨by assumption, ?_⟩
+        rintro ⟨i, e', _, hl, hf⟩
+        have := (h2 i).2 ⟨by assumption, e', hl, hf⟩
+        simp_all
+    · split at h
+      · cases h
+      · left; simp_all
+  · simp only [ho, not_false_eq_true, if_true] at h
+    split at h
+    · split at h
+      · cases h
+      · next hn =>
+        right; refine ⟨by assumption, ?_⟩
+        simp only [Map.lookup_erase] at hn
+        rintro ⟨i, e', hne, hl, hf⟩
+        have h5 := (h2 i).2 ⟨by assumption, e', hl, hf⟩
+        split at hn
+        · next heq =>
+          have h6 := (h2 id).2 ⟨by assumption, old, hold, heq.symm⟩
+          rw [h5] at h6; cases h6; exact hne rfl
+        · simp_all
+    · split at h
+      · cases h
+      · left; simp_all
 
-theorem create_frame {s b : C03.State} {id : Id} {v : Vals} (h : C03.create s id v = .ok b) :
-    b.ents = s.ents.insert id (persistCreate v) := by
-  unfold C03.create at h
-  split at h
-  · cases h
-  · split at h
-    · cases h
-    · exact (afterUpdate_frame h).1
+/-- **one unique constraint**: on success the index mirrors the table with the new entity in it,
+    the value is non-empty if the index is not nullable, and nobody else holds it; on failure the
+    error names the reason -/
+theorem uniqueAfter_char {E : Type} {f : E → Bytes} {ents : Map Id E} {idx : Map Bytes Id} {id : Id} {c : Bool}
+    {cap : Bytes} {nullable : Bool} (e : E) (hui : UI f ents idx) (hs : UShape f ents id c cap)
+    (hne : nullable = false → ∀ old, ents.lookup id = some old → f old ≠ []) :
+    match uniqueAfter c nullable cap (f e) id idx with
+    | .ok idx' => UI f (ents.insert id e) idx' ∧ (nullable = false → f e ≠ []) ∧
+        ¬ (f e ≠ [] ∧ HeldByOther f ents id (f e))
+    | .error x => (x = .nullNotAllowed ∧ nullable = false ∧ f e = []) ∨ (x = .dup ∧ f e ≠ [] ∧ HeldByOther f ents id (f e)) := by
+  cases hs with
+  | fresh hfresh =>
+    cases h : uniqueAfter true nullable [] (f e) id idx with
+    | ok idx' =>
+      refine ⟨uniqueAfter_create_ok hui hfresh h, fun hn => uniqueAfter_create_nonempty h hn, ?_⟩
+      rcases uniqueAfter_create_okc hui h with ⟨h1, _⟩ | ⟨_, h2⟩
+      · exact fun hh => hh.1 h1
+      · exact fun hh => h2 hh.2
+    | error x =>
+      rcases uniqueAfter_create_err hui hfresh h with ⟨h1, h2, h3⟩ | h1
+      · exact Or.inl ⟨h1, h3, h2⟩
+      · exact Or.inr h1
+  | update old hold =>
+    cases h : uniqueAfter false nullable (f old) (f e) id idx with
+    | ok idx' =>
+      refine ⟨uniqueAfter_update_ok hui hold h, ?_, ?_⟩
+      · intro hn; subst hn; exact uniqueAfter_update_nonempty h (hne rfl old hold)
+      · rcases uniqueAfter_update_okc hui hold h with ⟨h1, _⟩ | ⟨_, h2⟩
+        · exact fun hh => hh.1 h1
+        · exact fun hh => h2 hh.2
+    | error x =>
+      rcases uniqueAfter_update_err hui hold h with ⟨h1, h2, h3⟩ | h1
+      · exact Or.inl ⟨h1, h3, h2⟩
+      · exact Or.inr h1
+  | recreate old hold =>
+    cases h : uniqueAfter true nullable (f old) (f e) id idx with
+    | ok idx' =>
+      refine ⟨uniqueAfter_true_ok hui hold h, ?_, ?_⟩
+      · intro hn; subst hn; exact uniqueAfter_true_nonempty h
+      · rcases uniqueAfter_true_okc hui hold h with ⟨h1, _⟩ | ⟨_, h2⟩
+        · exact fun hh => hh.1 h1
+        · exact fun hh => h2 hh.2
+    | error x =>
+      rcases uniqueAfter_true_err hui hold h with ⟨h1, h2, h3⟩ | h1
+      · exact Or.inl ⟨h1, h3, h2⟩
+      · exact Or.inr h1
 
-theorem update_frame {s b : C03.State} {id : Id} {v : Vals} {chk : Option Checker} (h : C03.update s id v chk = .ok b) :
-    ∃ old, s.ents.lookup id = some old ∧ b.ents = s.ents.insert id (persist old v chk) := by
-  unfold C03.update at h
-  split at h
-  · cases h
-  · split at h
-    · cases h
-    · next old hold => exact ⟨old, hold, (afterUpdate_frame h).1⟩
+/-! ### the three ways `afterUpdate` is entered -/
+
+inductive Entry (b : C03.State) (id : Id) : Bool → Captured → Prop
+  | fresh (h : b.ents.lookup id = none) : Entry b id true Captured.none
+  | update (old : Ent) (h : b.ents.lookup id = some old) : Entry b id false (capture b id)
+  | recreate (old : Ent) (h : b.ents.lookup id = some old) : Entry b id true (capture b id)
+
+/-- the spec's acceptance condition, as a proposition -/
+def Acceptable (sch : Schema) (ents : Map Id Ent) (id : Id) (e : Ent) : Prop :=
+  (sch.regName = true → e.name ≠ []) ∧
+  ¬ (vName sch e ≠ [] ∧ HeldByOther (vName sch) ents id (vName sch e)) ∧
+  ¬ (vAlias sch e ≠ [] ∧ HeldByOther (vAlias sch) ents id (vAlias sch e)) ∧
+  [] ∉ vRoles sch e
+
+/-- the errors the spec lists for storing `e` under `id`, as a proposition -/
+def Listed (sch : Schema) (ents : Map Id Ent) (id : Id) (e : Ent) (x : Err) : Prop :=
+  (x = .nullNotAllowed ∧ sch.regName = true ∧ e.name = []) ∨
+  (x = .dup ∧ vName sch e ≠ [] ∧ HeldByOther (vName sch) ents id (vName sch e)) ∨
+  (x = .dup ∧ vAlias sch e ≠ [] ∧ HeldByOther (vAlias sch) ents id (vAlias sch e)) ∨
+  (x = .other ∧ [] ∈ vRoles sch e)
+
+theorem nameStep_char {sch : Schema} {b : C03.State} {id : Id} {c : Bool} {cap : Captured} (e : Ent)
+    (hi : BInv sch b) (hs : Entry b id c cap) :
+    match nameStep sch c cap.name e.name id b.uName with
+    | .ok un => UI (vName sch) (b.ents.insert id e) un ∧ (sch.regName = true → e.name ≠ []) ∧
+        ¬ (vName sch e ≠ [] ∧ HeldByOther (vName sch) b.ents id (vName sch e))
+    | .error x => Listed sch b.ents id e x := by
+  by_cases hreg : sch.regName = true
+  · have hf : vName sch = fun e => e.name := by funext e; simp [vName, hreg]
+    have hu : UShape (vName sch) b.ents id c cap.name := by
+      cases hs with
+      | fresh h => exact .fresh h
+      | update old h => rw [show (capture b id).name = vName sch old by simp [capture, h, evalName, hf]]; exact .update old h
+      | recreate old h => rw [show (capture b id).name = vName sch old by simp [capture, h, evalName, hf]]; exact .recreate old h
+    have hc := uniqueAfter_char (nullable := false) e hi.uName hu
+      (by intro _ old hold; rw [hf]; exact hi.namesNonEmpty hreg id old hold)
+    simp only [nameStep, hreg, if_true]
+    rw [show e.name = vName sch e by simp [hf]]
+    cases h : uniqueAfter c false cap.name (vName sch e) id b.uName with
+    | ok un =>
+      rw [h] at hc
+      exact ⟨hc.1, fun _ => by simpa [hf] using hc.2.1 rfl, hc.2.2⟩
+    | error x =>
+      rw [h] at hc
+      rcases hc with ⟨h1, _, h3⟩ | h1
+      · exact Or.inl ⟨h1, hreg, by simpa [hf] using h3⟩
+      · exact Or.inr (Or.inl h1)
+  · have hf : ∀ e, vName sch e = [] := by intro e; simp [vName, hreg]
+    simp only [nameStep, hreg]
+    refine ⟨UI_blind hf hi.uName, ?_, by simp [hf]⟩
+    intro h
+    first | exact absurd h hreg | cases h
+
+theorem aliasStep_char {sch : Schema} {b : C03.State} {id : Id} {c : Bool} {cap : Captured} (e : Ent)
+    (hi : BInv sch b) (hs : Entry b id c cap) :
+    match aliasStep sch c cap.alias (e.alias.getD []) id b.uAlias with
+    | .ok ua => UI (vAlias sch) (b.ents.insert id e) ua ∧
+        ¬ (vAlias sch e ≠ [] ∧ HeldByOther (vAlias sch) b.ents id (vAlias sch e))
+    | .error x => Listed sch b.ents id e x := by
+  by_cases hreg : sch.regAlias = true
+  · have hf : vAlias sch = fun e => e.alias.getD [] := by funext e; simp [vAlias, hreg]
+    have hu : UShape (vAlias sch) b.ents id c cap.alias := by
+      cases hs with
+      | fresh h => exact .fresh h
+      | update old h => rw [show (capture b id).alias = vAlias sch old by simp [capture, h, evalAlias, hf]]; exact .update old h
+      | recreate old h => rw [show (capture b id).alias = vAlias sch old by simp [capture, h, evalAlias, hf]]; exact .recreate old h
+    have hc := uniqueAfter_char (nullable := true) e hi.uAlias hu (by intro h; cases h)
+    simp only [aliasStep, hreg, if_true]
+    rw [show e.alias.getD [] = vAlias sch e by simp [hf]]
+    cases h : uniqueAfter c true cap.alias (vAlias sch e) id b.uAlias with
+    | ok ua =>
+      rw [h] at hc
+      exact ⟨hc.1, hc.2.2⟩
+    | error x =>
+      rw [h] at hc
+      rcases hc with ⟨_, h2, _⟩ | h1
+      · cases h2
+      · exact Or.inr (Or.inr (Or.inl h1))
+  · have hf : ∀ e, vAlias sch e = [] := by intro e; simp [vAlias, hreg]
+    simp only [aliasStep, hreg]
+    exact ⟨UI_blind hf hi.uAlias, by simp [hf]⟩
+
+theorem rolesStep_char {sch : Schema} {b : C03.State} {id : Id} {c : Bool} {cap : Captured} (e : Ent)
+    (hi : BInv sch b) (hs : Entry b id c cap) :
+    match rolesStep sch cap.roles e.roles id b.sRoles with
+    | .ok sr => SI (vRoles sch) (b.ents.insert id e) sr ∧ NEK sr ∧ [] ∉ vRoles sch e
+    | .error x => Listed sch b.ents id e x := by
+  by_cases hreg : sch.regRoles = true
+  · have hf : vRoles sch = fun e => e.roles := by funext e; simp [vRoles, hreg]
+    have hold : (∀ v, v ∈ cap.roles ↔ ∃ o, b.ents.lookup id = some o ∧ v ∈ vRoles sch o) ∧ [] ∉ cap.roles := by
+      cases hs with
+      | fresh h => simp [Captured.none, h]
+      | update old h =>
+        have := hi.rolesNonEmpty id old h
+        simp only [hf] at this ⊢
+        simp [capture, h, evalRoles, this]
+      | recreate old h =>
+        have := hi.rolesNonEmpty id old h
+        simp only [hf] at this ⊢
+        simp [capture, h, evalRoles, this]
+    simp only [rolesStep, hreg, if_true]
+    rw [show e.roles = vRoles sch e by simp [hf]]
+    cases h : setAfter cap.roles (vRoles sch e) id b.sRoles with
+    | ok sr =>
+      have h1 := setAfter_ok (r := vRoles sch) (e := e) hi.sRoles hi.noEmptyKeys hold.1 h
+      exact ⟨h1.1, h1.2, setAfter_ok_nonempty h hold.2⟩
+    | error x =>
+      have h1 := setAfter_err h hold.2
+      exact Or.inr (Or.inr (Or.inr h1))
+  · have hf : ∀ e, vRoles sch e = [] := by intro e; simp [vRoles, hreg]
+    simp only [rolesStep, hreg]
+    exact ⟨SI_blind hf hi.sRoles, hi.noEmptyKeys, by simp [hf]⟩
+
+/-- the loop over the constraints: it succeeds iff every constraint does; otherwise its error is the
+    error of one of them -/
+theorem seq3_cases {A B C : Type} (p : Perm) (rn : Except Err A) (ra : Except Err B) (rr : Except Err C)
+    (Q : Err → Prop) (hn : ∀ x, rn = .error x → Q x) (ha : ∀ x, ra = .error x → Q x) (hr : ∀ x, rr = .error x → Q x) :
+    match seq3 p rn ra rr with
+    | .ok (a, b, c) => rn = .ok a ∧ ra = .ok b ∧ rr = .ok c
+    | .error x => Q x := by
+  cases p <;> cases rn <;> cases ra <;> cases rr <;>
+    simp_all [seq3, bind, Except.bind, pure, Except.pure]
+
+/-- **`ProcessAfterUpdate` characterised**, for every registration order and choice of registered
+    indexes and each way it is entered: on success the invariant holds for the table with the new
+    entity and the spec accepts the entity; on failure the error is one the spec lists -/
+theorem afterUpdate_char {sch : Schema} {b : C03.State} {id : Id} {c : Bool} {cap : Captured} (e : Ent) (hb : Bool)
+    (hi : BInv sch b) (hid : id ≠ []) (hs : Entry b id c cap)
+    (hhas : hb = true ∨ ((b.ents.lookup id).isSome = true ∧ hb = b.hasEnts)) :
+    match afterUpdate sch c cap { b with hasEnts := hb, ents := b.ents.insert id e } id with
+    | .ok b' => BInv sch b' ∧ b'.ents = b.ents.insert id e ∧ b'.hasEnts = hb ∧ Acceptable sch b.ents id e
+    | .error x => Listed sch b.ents id e x := by
+  have hn := nameStep_char e hi hs
+  have ha := aliasStep_char e hi hs
+  have hr := rolesStep_char e hi hs
+  simp only [afterUpdate, Map.lookup_insert, if_true, evalName, evalAlias, evalRoles]
+  have hseq := seq3_cases sch.perm (nameStep sch c cap.name e.name id b.uName)
+    (aliasStep sch c cap.alias (e.alias.getD []) id b.uAlias) (rolesStep sch cap.roles e.roles id b.sRoles)
+    (Listed sch b.ents id e)
+    (by intro x hx; rw [hx] at hn; exact hn) (by intro x hx; rw [hx] at ha; exact ha) (by intro x hx; rw [hx] at hr; exact hr)
+  generalize seq3 sch.perm (nameStep sch c cap.name e.name id b.uName)
+    (aliasStep sch c cap.alias (e.alias.getD []) id b.uAlias) (rolesStep sch cap.roles e.roles id b.sRoles) = q at hseq
+  cases q with
+  | error x => exact hseq
+  | ok t =>
+    obtain ⟨un, ua, sr⟩ := t
+    simp only at hseq ⊢
+    rw [hseq.1] at hn; rw [hseq.2.1] at ha; rw [hseq.2.2] at hr
+    simp only at hn ha hr
+    refine ⟨⟨hn.1, ha.1, hr.1, hr.2.1, ?_, ?_, ?_, ?_⟩, by simp, by simp, hn.2.1, hn.2.2, ha.2, hr.2.2⟩
+    · intro hreg i e'; simp only [Map.lookup_insert]; split
+      · intro h2; cases h2; exact hn.2.1 hreg
+      · exact hi.namesNonEmpty hreg i e'
+    · intro i e'; simp only [Map.lookup_insert]; split
+      · intro h2; cases h2; exact hr.2.2
+      · exact hi.rolesNonEmpty i e'
+    · simp only [Map.lookup_insert]
+      have : ¬ ([] : Id) = id := fun e => hid e.symm
+      simp [this, hi.idsNonEmpty]
+    · intro i e'; simp only [Map.lookup_insert]
+      rcases hhas with rfl | ⟨hsome, rfl⟩
+      · intros; rfl
+      · split
+        · intro _
+          cases hl : b.ents.lookup id with
+          | none => simp [hl] at hsome
+          | some o => exact hi.entsBucket id o hl
+        · exact hi.entsBucket i e'
+
+/-! ### preservation: create and update -/
 
 theorem isSome_lookup_insert {V : Type} (m : Map Id V) (id k : Id) (x : V) (h : (m.lookup k).isSome = true) :
     ((m.insert id x).lookup k).isSome = true := by
   simp only [Map.lookup_insert]; split <;> simp [h]
 
-/-! ### a create context over an existing entity (child-store create over a plain parent) -/
+theorem extIn_insert_both {b : C03.State} {ext : Map Id Bytes} {id : Id} {e : Ent} {x : Bytes}
+    (h : ∀ k t, ext.lookup k = some t → (b.ents.lookup k).isSome = true) :
+    ∀ k t, (ext.insert id x).lookup k = some t → ((b.ents.insert id e).lookup k).isSome = true := by
+  intro k t hk
+  simp only [Map.lookup_insert] at hk ⊢
+  split
+  · simp
+  · next hne => simp only [hne, if_false] at hk; exact h k t hk
 
-theorem inv_recreate {s s' : C03.State} {id : Id} {old e : Ent} (hi : C03.Inv s) (hid : id ≠ [])
-    (hold : s.ents.lookup id = some old)
-    (h : afterUpdate true (capture s id) { s with hasEnts := true, ents := s.ents.insert id e } id = .ok s') :
-    C03.Inv s' := by
-  simp only [afterUpdate, capture, hold, bind, Except.bind, Map.lookup_insert, if_true, evalName, evalAlias,
-    evalRoles, pure, Except.pure] at h
+theorem inv_createParent {sch : Schema} {s s' : State} {id : Id} {v : Vals} (hi : Inv sch s)
+    (h : createParent sch s id v = .ok s') : Inv sch s' := by
+  unfold createParent at h
   split at h
   · cases h
-  · next un hun =>
+  · next hid =>
     split at h
     · cases h
-    · next ua hua =>
+    · next hfresh =>
+      have hfresh : s.base.ents.lookup id = none := by simpa using hfresh
+      have hc := afterUpdate_char (persistCreate v) true hi.base hid (.fresh hfresh) (Or.inl rfl)
+      dsimp only at h
       split at h
-      · cases h
-      · next sr hsr =>
+      · next b hb =>
         cases h
-        have hsr' := setAfter_ok (r := (·.roles)) (e := e) hi.sRoles hi.noEmptyKeys
-          (oldRoles := old.roles) (id := id) (by intro x; simp [hold]) hsr
-        have hne := uniqueAfter_true_nonempty hun
-        have hre := setAfter_ok_nonempty hsr (hi.rolesNonEmpty id old hold)
-        refine ⟨uniqueAfter_true_ok (f := (·.name)) hi.uName hold hun,
-          uniqueAfter_true_ok (f := fun e => e.alias.getD []) hi.uAlias hold hua,
-          hsr'.1, hsr'.2, ?_, ?_, ?_, ?_⟩
-        · intro i e'; simp only [Map.lookup_insert]; split
-          · intro h2; cases h2; exact hne
-          · exact hi.namesNonEmpty i e'
-        · intro i e'; simp only [Map.lookup_insert]; split
-          · intro h2; cases h2; exact hre
-          · exact hi.rolesNonEmpty i e'
-        · simp only [Map.lookup_insert]
-          have : ¬ ([] : Id) = id := fun e => hid e.symm
-          simp [this, hi.idsNonEmpty]
-        · intros; rfl
+        rw [hb] at hc
+        refine ⟨hc.1, ?_⟩
+        intro k t hk
+        show ((b.ents).lookup k).isSome = true
+        rw [hc.2.1]
+        exact isSome_lookup_insert _ _ _ _ (hi.extIn k t hk)
+      · cases h
 
-/-- a child-store create of a fresh id is the parent store's create followed by the child data -/
-theorem createChild_fresh {s : State} {id : Id} {v : Vals} {tag : Bytes} (hid : id ≠ [])
-    (hfresh : s.base.ents.lookup id = none) :
-    createChild s id v tag =
-      match C03.create s.base id v with
-      | .ok b => .ok ⟨b, s.ext.insert id tag⟩
-      | .error e => .error e := by
-  simp only [createChild, C03.create, hid, hasExt, hfresh, if_false, Option.isSome_none, Bool.false_and,
-    Bool.false_eq_true]
-  generalize afterUpdate true Captured.none _ id = r
-  cases r <;> rfl
-
-theorem inv_create {s s' : State} {via : Sel} {id : Id} {v : Vals} {tag : Bytes} (hi : Inv s)
-    (h : create s via id v tag = .ok s') : Inv s' := by
-  cases via with
-  | parent =>
-    simp only [create] at h
+theorem inv_createChild {sch : Schema} {s s' : State} {id : Id} {v : Vals} {tag : Bytes} (hi : Inv sch s)
+    (h : createChild sch s id v tag = .ok s') : Inv sch s' := by
+  unfold createChild at h
+  split at h
+  · cases h
+  · next hid =>
     split at h
-    · next b hb =>
-      cases h
-      refine ⟨C03.inv_create hi.base hb, ?_⟩
-      intro k t hk
-      rw [create_frame hb]
-      exact isSome_lookup_insert _ _ _ _ (hi.extIn k t hk)
     · cases h
-  | child =>
-    simp only [create] at h
-    by_cases hid : id = []
-    · simp [createChild, hid] at h
     · cases hold : s.base.ents.lookup id with
       | none =>
-        rw [createChild_fresh hid hold] at h
+        have hch := afterUpdate_char (persistCreate v) true hi.base hid (.fresh hold) (Or.inl rfl)
+        simp only [hold, Option.isSome_none, Bool.false_eq_true, if_false] at h
         split at h
         · next b hb =>
           cases h
-          refine ⟨C03.inv_create hi.base hb, ?_⟩
-          intro k t hk
-          rw [create_frame hb]
-          simp only [Map.lookup_insert] at hk ⊢
-          split
-          · simp
-          · next hne => simp only [hne, if_false] at hk; exact hi.extIn k t hk
+          rw [hb] at hch
+          refine ⟨hch.1, ?_⟩
+          show ∀ k t, (s.ext.insert id tag).lookup k = some t → ((b.ents).lookup k).isSome = true
+          rw [hch.2.1]
+          exact extIn_insert_both hi.extIn
         · cases h
       | some old =>
-        simp only [createChild, hid, if_false, hold, Option.isSome_some, if_true] at h
+        have hch := afterUpdate_char (persistCreate v) true hi.base hid (.recreate old hold) (Or.inl rfl)
+        simp only [hold, Option.isSome_some, if_true] at h
         split at h
+        · next b hb =>
+          cases h
+          rw [hb] at hch
+          refine ⟨hch.1, ?_⟩
+          show ∀ k t, (s.ext.insert id tag).lookup k = some t → ((b.ents).lookup k).isSome = true
+          rw [hch.2.1]
+          exact extIn_insert_both hi.extIn
         · cases h
-        · split at h
-          · next b hb =>
-            cases h
-            refine ⟨inv_recreate hi.base hid hold hb, ?_⟩
-            intro k t hk
-            rw [(afterUpdate_frame hb).1]
-            simp only [Map.lookup_insert] at hk ⊢
-            split
-            · simp
-            · next hne => simp only [hne, if_false] at hk; exact hi.extIn k t hk
-          · cases h
+
+theorem updateBase_char {sch : Schema} {b : C03.State} {id : Id} {old : Ent} (v : Vals) (chk : Option (List Bytes))
+    (hi : BInv sch b) (hid : id ≠ []) (hold : b.ents.lookup id = some old) :
+    match updateBase sch b id old v chk with
+    | .ok b' => BInv sch b' ∧ b'.ents = b.ents.insert id (persist old v (resolveOpt sch chk)) ∧ b'.hasEnts = b.hasEnts ∧
+        Acceptable sch b.ents id (persist old v (resolveOpt sch chk))
+    | .error x => Listed sch b.ents id (persist old v (resolveOpt sch chk)) x := by
+  have := afterUpdate_char (persist old v (resolveOpt sch chk)) b.hasEnts hi hid (.update old hold)
+    (Or.inr ⟨by simp [hold], rfl⟩)
+  exact this
+
+theorem inv_updateParent {sch : Schema} {s s' : State} {id : Id} {v : Vals} {chk : Option (List Bytes)}
+    (hi : Inv sch s) (h : updateParent sch s id v chk = .ok s') : Inv sch s' := by
+  unfold updateParent at h
+  split at h
+  · cases h
+  · next hid =>
+    split at h
+    · cases h
+    · next old hold =>
+      have hc := updateBase_char v chk hi.base hid hold
+      split at h
+      · next b hb =>
+        cases h
+        rw [hb] at hc
+        refine ⟨hc.1, ?_⟩
+        intro k t hk
+        show ((b.ents).lookup k).isSome = true
+        rw [hc.2.1]
+        exact isSome_lookup_insert _ _ _ _ (hi.extIn k t hk)
+      · cases h
 
 theorem inv_updateChild {sch : Schema} {s s' : State} {id : Id} {v : Vals} {tag : Bytes} {chk : Option (List Bytes)}
-    (hi : Inv s) (h : updateChild sch s id v tag chk = .ok s') : Inv s' := by
+    (hi : Inv sch s) (h : updateChild sch s id v tag chk = .ok s') : Inv sch s' := by
   unfold updateChild at h
   split at h
   · cases h
-  · split at h
+  · next hid =>
+    split at h
     · cases h
     · split at h
-      · next b hb =>
-        cases h
-        obtain ⟨old, hold, hents⟩ := update_frame hb
-        refine ⟨C03.inv_update hi.base hb, ?_⟩
-        intro k t hk
-        rw [hents]
-        simp only [Map.lookup_insert] at hk ⊢
-        split
-        · simp
-        · next hne => simp only [hne, if_false] at hk; exact hi.extIn k t hk
       · cases h
+      · next old hold =>
+        have hc := updateBase_char v chk hi.base hid hold
+        split at h
+        · next b hb =>
+          cases h
+          rw [hb] at hc
+          refine ⟨hc.1, ?_⟩
+          show ∀ k t, (s.ext.insert id _).lookup k = some t → ((b.ents).lookup k).isSome = true
+          rw [hc.2.1]
+          exact extIn_insert_both hi.extIn
+        · cases h
+
+theorem inv_create {sch : Schema} {s s' : State} {via : Sel} {id : Id} {v : Vals} {tag : Bytes} (hi : Inv sch s)
+    (h : create sch s via id v tag = .ok s') : Inv sch s' := by
+  cases via with
+  | parent => exact inv_createParent hi h
+  | child => exact inv_createChild hi h
 
 theorem inv_update {sch : Schema} {s s' : State} {via : Sel} {id : Id} {v : Vals} {tag : Bytes}
-    {chk : Option (List Bytes)} (hi : Inv s) (h : update sch s via id v tag chk = .ok s') : Inv s' := by
+    {chk : Option (List Bytes)} (hi : Inv sch s) (h : update sch s via id v tag chk = .ok s') : Inv sch s' := by
   cases via with
   | child => exact inv_updateChild hi h
   | parent =>
     simp only [update] at h
     split at h
     · exact inv_updateChild hi h
-    · split at h
-      · next b hb =>
-        cases h
-        obtain ⟨old, hold, hents⟩ := update_frame hb
-        refine ⟨C03.inv_update hi.base hb, ?_⟩
-        intro k t hk
-        rw [hents]
-        exact isSome_lookup_insert _ _ _ _ (hi.extIn k t hk)
-      · cases h
+    · exact inv_updateParent hi h
 
 /-! ### DeleteById: one or two passes of the parent's `ProcessBeforeDelete` -/
 
 /-- the state between the passes and after them: the indexes already describe the table without
     the entity, which is still in its bucket -/
-structure Gone (s : C03.State) (id : Id) : Prop where
-  uName : UI (·.name) (s.ents.erase id) s.uName
-  uAlias : UI (fun e => e.alias.getD []) (s.ents.erase id) s.uAlias
-  sRoles : SI (·.roles) (s.ents.erase id) s.sRoles
+structure Gone (sch : Schema) (s : C03.State) (id : Id) : Prop where
+  uName : UI (vName sch) (s.ents.erase id) s.uName
+  uAlias : UI (vAlias sch) (s.ents.erase id) s.uAlias
+  sRoles : SI (vRoles sch) (s.ents.erase id) s.sRoles
   noEmptyKeys : NEK s.sRoles
 
 theorem uniqueBeforeDelete_gone {E : Type} {f : E → Bytes} {ents : Map Id E} {idx : Map Bytes Id} {v : Bytes}
@@ -223,48 +520,94 @@ theorem setBeforeDelete_gone {E : Type} {r : E → List Bytes} {ents : Map Id E}
     grind
 
 /-- the first pass on a consistent state -/
-theorem pass_first {s b : C03.State} {id : Id} {e : Ent} (hi : C03.Inv s) (hold : s.ents.lookup id = some e)
-    (h : passBeforeDelete s e id = .ok b) : Gone b id ∧ b.ents = s.ents ∧ b.hasEnts = s.hasEnts := by
+theorem pass_first {sch : Schema} {s b : C03.State} {id : Id} {e : Ent} (hi : BInv sch s) (hold : s.ents.lookup id = some e)
+    (h : passBeforeDelete sch s e id = .ok b) : Gone sch b id ∧ b.ents = s.ents ∧ b.hasEnts = s.hasEnts := by
   unfold passBeforeDelete at h
   split at h
   · next sr hsr =>
     cases h
-    have hsr' := setBeforeDelete_ok (r := (·.roles)) hi.sRoles hi.noEmptyKeys hold hsr
-    exact ⟨⟨uniqueBeforeDelete_ok (f := (·.name)) hi.uName hold,
-      uniqueBeforeDelete_ok (f := fun e => e.alias.getD []) hi.uAlias hold, hsr'.1, hsr'.2⟩, rfl, rfl⟩
+    refine ⟨⟨?_, ?_, ?_, ?_⟩, rfl, rfl⟩
+    · show UI (vName sch) (s.ents.erase id) (if sch.regName = true then _ else _)
+      by_cases hreg : sch.regName = true
+      · have hf : vName sch = fun e => e.name := by funext e; simp [vName, hreg]
+        simp only [hreg, if_true, evalName]
+        have := uniqueBeforeDelete_ok (f := vName sch) hi.uName hold
+        simpa [hf] using this
+      · simp only [hreg]
+        exact UI_blind (by intro e; simp [vName, hreg]) hi.uName
+    · show UI (vAlias sch) (s.ents.erase id) (if sch.regAlias = true then _ else _)
+      by_cases hreg : sch.regAlias = true
+      · have hf : vAlias sch = fun e => e.alias.getD [] := by funext e; simp [vAlias, hreg]
+        simp only [hreg, if_true, evalAlias]
+        have := uniqueBeforeDelete_ok (f := vAlias sch) hi.uAlias hold
+        simpa [hf] using this
+      · simp only [hreg]
+        exact UI_blind (by intro e; simp [vAlias, hreg]) hi.uAlias
+    · show SI (vRoles sch) (s.ents.erase id) sr
+      by_cases hreg : sch.regRoles = true
+      · have hf : vRoles sch = fun e => e.roles := by funext e; simp [vRoles, hreg]
+        simp only [hreg, if_true, evalRoles] at hsr
+        exact (setBeforeDelete_ok (r := vRoles sch) hi.sRoles hi.noEmptyKeys hold (by simpa [hf] using hsr)).1
+      · simp only [hreg, Bool.false_eq_true, if_false, Except.ok.injEq] at hsr
+        subst hsr
+        exact SI_blind (by intro e; simp [vRoles, hreg]) hi.sRoles
+    · show NEK sr
+      by_cases hreg : sch.regRoles = true
+      · have hf : vRoles sch = fun e => e.roles := by funext e; simp [vRoles, hreg]
+        simp only [hreg, if_true, evalRoles] at hsr
+        exact (setBeforeDelete_ok (r := vRoles sch) hi.sRoles hi.noEmptyKeys hold (by simpa [hf] using hsr)).2
+      · simp only [hreg, Bool.false_eq_true, if_false, Except.ok.injEq] at hsr
+        subst hsr
+        exact hi.noEmptyKeys
   · cases h
 
 /-- a further pass finds nothing left to remove -/
-theorem pass_again {s b : C03.State} {id : Id} {e : Ent} (hg : Gone s id)
-    (hn : e.name ≠ [] → s.uName.lookup e.name = none)
-    (ha : e.alias.getD [] ≠ [] → s.uAlias.lookup (e.alias.getD []) = none)
-    (h : passBeforeDelete s e id = .ok b) : Gone b id ∧ b.ents = s.ents ∧ b.hasEnts = s.hasEnts := by
+theorem pass_again {sch : Schema} {s b : C03.State} {id : Id} {e : Ent} (hg : Gone sch s id)
+    (hn : sch.regName = true → e.name ≠ [] → s.uName.lookup e.name = none)
+    (ha : sch.regAlias = true → e.alias.getD [] ≠ [] → s.uAlias.lookup (e.alias.getD []) = none)
+    (h : passBeforeDelete sch s e id = .ok b) : Gone sch b id ∧ b.ents = s.ents ∧ b.hasEnts = s.hasEnts := by
   unfold passBeforeDelete at h
   split at h
   · next sr hsr =>
     cases h
-    have hsr' := setBeforeDelete_gone (r := fun (e : Ent) => e.roles) (ents := s.ents.erase id) hg.sRoles hg.noEmptyKeys
-      (by simp) hsr
-    exact ⟨⟨uniqueBeforeDelete_gone (f := fun (e : Ent) => e.name) hg.uName hn,
-      uniqueBeforeDelete_gone (f := fun (e : Ent) => e.alias.getD []) hg.uAlias ha, hsr'.1, hsr'.2⟩, rfl, rfl⟩
+    have hsr' : SI (vRoles sch) (s.ents.erase id) sr ∧ NEK sr := by
+      by_cases hreg : sch.regRoles = true
+      · simp only [hreg, if_true] at hsr
+        exact setBeforeDelete_gone (r := vRoles sch) (ents := s.ents.erase id) hg.sRoles hg.noEmptyKeys (by simp) hsr
+      · simp only [hreg, Bool.false_eq_true, if_false, Except.ok.injEq] at hsr
+        subst hsr
+        exact ⟨hg.sRoles, hg.noEmptyKeys⟩
+    refine ⟨⟨?_, ?_, hsr'.1, hsr'.2⟩, rfl, rfl⟩
+    · show UI (vName sch) (s.ents.erase id) (if sch.regName = true then _ else _)
+      by_cases hreg : sch.regName = true
+      · simp only [hreg, if_true, evalName]
+        exact uniqueBeforeDelete_gone hg.uName (hn hreg)
+      · simp only [hreg]; exact hg.uName
+    · show UI (vAlias sch) (s.ents.erase id) (if sch.regAlias = true then _ else _)
+      by_cases hreg : sch.regAlias = true
+      · simp only [hreg, if_true, evalAlias]
+        exact uniqueBeforeDelete_gone hg.uAlias (ha hreg)
+      · simp only [hreg]; exact hg.uAlias
   · cases h
 
 /-- what the first pass leaves for the second one to look up -/
-theorem pass_first_lookups {s b : C03.State} {id : Id} {e : Ent} (h : passBeforeDelete s e id = .ok b) :
-    (e.name ≠ [] → b.uName.lookup e.name = none) ∧
-    (e.alias.getD [] ≠ [] → b.uAlias.lookup (e.alias.getD []) = none) := by
+theorem pass_first_lookups {sch : Schema} {s b : C03.State} {id : Id} {e : Ent} (h : passBeforeDelete sch s e id = .ok b) :
+    (sch.regName = true → e.name ≠ [] → b.uName.lookup e.name = none) ∧
+    (sch.regAlias = true → e.alias.getD [] ≠ [] → b.uAlias.lookup (e.alias.getD []) = none) := by
   unfold passBeforeDelete at h
   split at h
   · cases h
-    exact ⟨fun hn => uniqueBeforeDelete_lookup_self _ _ hn, fun ha => uniqueBeforeDelete_lookup_self _ _ ha⟩
+    refine ⟨fun hr hn => ?_, fun hr ha => ?_⟩
+    · simp only [hr, if_true, evalName]; exact uniqueBeforeDelete_lookup_self _ _ hn
+    · simp only [hr, if_true, evalAlias]; exact uniqueBeforeDelete_lookup_self _ _ ha
   · cases h
 
-theorem gone_erase {s : C03.State} {id : Id} (hi : C03.Inv s) {b : C03.State} (hg : Gone b id) (hents : b.ents = s.ents)
-    (hhas : b.hasEnts = s.hasEnts) : C03.Inv { b with ents := b.ents.erase id } := by
+theorem gone_erase {sch : Schema} {s : C03.State} {id : Id} (hi : BInv sch s) {b : C03.State} (hg : Gone sch b id)
+    (hents : b.ents = s.ents) (hhas : b.hasEnts = s.hasEnts) : BInv sch { b with ents := b.ents.erase id } := by
   refine ⟨hg.uName, hg.uAlias, hg.sRoles, hg.noEmptyKeys, ?_, ?_, ?_, ?_⟩
-  · intro i e'; simp only [hents, Map.lookup_erase]; split
+  · intro hreg i e'; simp only [hents, Map.lookup_erase]; split
     · simp
-    · exact hi.namesNonEmpty i e'
+    · exact hi.namesNonEmpty hreg i e'
   · intro i e'; simp only [hents, Map.lookup_erase]; split
     · simp
     · exact hi.rolesNonEmpty i e'
@@ -273,7 +616,8 @@ theorem gone_erase {s : C03.State} {id : Id} (hi : C03.Inv s) {b : C03.State} (h
     · simp
     · exact hi.entsBucket i e'
 
-theorem inv_delete {s s' : State} {via : Sel} {id : Id} (hi : Inv s) (h : delete s via id = .ok s') : Inv s' := by
+theorem inv_delete {sch : Schema} {s s' : State} {via : Sel} {id : Id} (hi : Inv sch s)
+    (h : delete sch s via id = .ok s') : Inv sch s' := by
   unfold delete at h
   split at h
   · cases h
@@ -305,14 +649,14 @@ theorem inv_delete {s s' : State} {via : Sel} {id : Id} (hi : Inv s) (h : delete
             obtain ⟨hg2, he2, hh2⟩ := pass_first hi.base hold hb2
             exact ⟨gone_erase hi.base hg2 he2 hh2, hext b2 he2⟩
 
-theorem inv_stepRaw {sch : Schema} {s s' : State} {op : Op} (hi : Inv s) (h : stepRaw sch s op = .ok s') : Inv s' := by
+theorem inv_stepRaw {sch : Schema} {s s' : State} {op : Op} (hi : Inv sch s) (h : stepRaw sch s op = .ok s') : Inv sch s' := by
   cases op with
   | create via id v tag => exact inv_create hi h
   | update via id v tag chk => exact inv_update hi h
   | delete via id => exact inv_delete (via := via) hi h
 
-theorem inv_applyOps {sch : Schema} {s s' : State} {ops : List Op} {i : Nat} (hi : Inv s)
-    (h : applyOps sch s ops i = .ok s') : Inv s' := by
+theorem inv_applyOps {sch : Schema} {s s' : State} {ops : List Op} {i : Nat} (hi : Inv sch s)
+    (h : applyOps sch s ops i = .ok s') : Inv sch s' := by
   induction ops generalizing s i with
   | nil => simp only [applyOps] at h; cases h; exact hi
   | cons op rest ih =>
@@ -321,7 +665,7 @@ theorem inv_applyOps {sch : Schema} {s s' : State} {ops : List Op} {i : Nat} (hi
     · next s1 h1 => exact ih (inv_stepRaw hi h1) h
     · cases h
 
-theorem inv_txStep {sch : Schema} {s : State} (ops : List Op) (hi : Inv s) : Inv (txStep sch s ops).1 := by
+theorem inv_txStep {sch : Schema} {s : State} (ops : List Op) (hi : Inv sch s) : Inv sch (txStep sch s ops).1 := by
   unfold txStep
   split
   · next s' h => exact inv_applyOps hi h
